@@ -200,3 +200,70 @@ func C12FloodTerminate() {
 	v.probe("after-flood-with-terminate")
 	sym.Reach("flood-terminate-done")
 }
+
+// c12FloodRequests: while the object is busy in a slow method, a hostile connection pipelines more
+// subscription requests (calls or posts: a post is never answered, so nothing throttles it) than the
+// connection queue and the object mailbox hold together; optionally it then vanishes with the requests
+// still queued. When the slow method finishes the object works through the backlog and keeps
+// answering everybody else.
+func c12FloodRequests(leave bool) {
+	v := newZZVictim(0)
+	v.obj.gate = make(chan struct{})
+	if leave {
+		// the hostile client already holds a subscription
+		out := zzRoundTrip(v.hostile, zzFrame(net.Call, v.sid, 1, 0, 99, zzRegisterPayload(1, 0x60, 999)))
+		sym.Assert(len(out) == 1, "hostile-registration-answered")
+	}
+	v.hostile.inject(zzFrame(net.Call, v.sid, 1, 1000, 100, nil))
+	sym.Quiesce()
+	typ := []uint8{net.Post, net.Call}[sym.Choose("request-type", 2)]
+	action := uint32(sym.Choose("request-action", 2)) // registerEvent / unregisterEvent
+	for i := 0; i < 24; i++ {
+		v.hostile.inject(zzFrame(typ, v.sid, 1, action, uint32(200+i), zzRegisterPayload(1, 0x60, uint64(1000+i))))
+	}
+	sym.Quiesce()
+	if leave {
+		// no quiescence here: the object resumes while the connection is being torn down
+		v.hostile.peerClose()
+	}
+	close(v.obj.gate)
+	sym.Quiesce()
+	v.probe("after-request-flood")
+	sym.Reach("request-flood-done")
+}
+
+func C12FloodRequests()      { c12FloodRequests(false) }
+func C12FloodRequestsLeave() { c12FloodRequests(true) }
+
+// C12LeaveWithQueued: a hostile client that holds a subscription queues a few more subscription
+// requests while the object is busy, then disconnects; the object resumes while the connection is
+// being torn down (all interleavings within the delay budget). The object keeps answering others.
+func C12LeaveWithQueued() {
+	sym.Schedules(false) // the set-up runs under the default schedule
+	v := newZZVictim(0)
+	if sym.Choose("object-created-after-the-connection", 2) == 1 {
+		// the same scenario on an object that is younger than the hostile connection (in the
+		// engine's default round-robin order its mailbox then runs after the connection's reader)
+		v.obj = newZZObj()
+		service, err := v.srv.NewService("late", v.obj.front)
+		sym.Assert(err == nil, "late-service-registered")
+		v.sid = service.ServiceID()
+	}
+	v.obj.gate = make(chan struct{})
+	out := zzRoundTrip(v.hostile, zzFrame(net.Call, v.sid, 1, 0, 99, zzRegisterPayload(1, 0x60, 999)))
+	sym.Assert(len(out) == 1, "hostile-registration-answered")
+	v.hostile.inject(zzFrame(net.Call, v.sid, 1, 1000, 100, nil))
+	sym.Quiesce()
+	n := 1 + sym.Choose("queued-requests", 3)
+	for i := 0; i < n; i++ {
+		v.hostile.inject(zzFrame(net.Post, v.sid, 1, 0, uint32(200+i), zzRegisterPayload(1, 0x60, uint64(1000+i))))
+	}
+	sym.Quiesce()
+	sym.Schedules(true)
+	v.hostile.peerClose()
+	close(v.obj.gate)
+	sym.Quiesce()
+	sym.Schedules(false)
+	v.probe("after-leave-with-queued-requests")
+	sym.Reach("leave-queued-done")
+}
